@@ -2,10 +2,35 @@
 
 package diskpacked
 
-import "reflect"
+import (
+	"os"
+	"reflect"
+)
 
 // VerifStatGateInUse reports how many slots of the package-level stat gate are
 // currently taken.
 func VerifStatGateInUse() int {
 	return reflect.ValueOf(statGate).Elem().Field(0).Len()
+}
+
+// VerifSetPunchHoleHook makes the removal code call before just ahead of
+// erasing the data of a removed blob and after right behind it, when the
+// hole was punched. It returns a function that restores the
+// previous behaviour. Not safe for use concurrently with removals.
+func VerifSetPunchHoleHook(before, after func(packPath string, offset, size int64)) (restore func()) {
+	orig := punchHole
+	if orig == nil {
+		return func() {}
+	}
+	punchHole = func(f *os.File, offset, size int64) error {
+		if before != nil {
+			before(f.Name(), offset, size)
+		}
+		err := orig(f, offset, size)
+		if after != nil && err == nil {
+			after(f.Name(), offset, size)
+		}
+		return err
+	}
+	return func() { punchHole = orig }
 }
